@@ -6,6 +6,7 @@ import (
 	"fmt"
 	"math/big"
 	"sort"
+	"strconv"
 	"strings"
 )
 
@@ -84,33 +85,36 @@ func Reset() {
 }
 
 func key(t *Term) string {
-	var sb strings.Builder
-	sb.WriteString(t.Op)
-	sb.WriteByte('|')
-	sb.WriteString(string(t.S))
-	sb.WriteByte('|')
-	sb.WriteString(t.Name)
+	b := make([]byte, 0, 64)
+	b = append(b, t.Op...)
+	b = append(b, '|')
+	b = append(b, t.S...)
+	b = append(b, '|')
+	b = append(b, t.Name...)
 	if t.Val != nil {
-		sb.WriteByte('#')
-		sb.WriteString(t.Val.String())
+		b = append(b, '#')
+		b = t.Val.Append(b, 10)
 	}
 	if t.Op == "bool" {
 		if t.B {
-			sb.WriteString("#t")
+			b = append(b, "#t"...)
 		} else {
-			sb.WriteString("#f")
+			b = append(b, "#f"...)
 		}
 	}
 	for _, a := range t.Args {
-		fmt.Fprintf(&sb, ",%d", a.id)
+		b = append(b, ',')
+		b = strconv.AppendInt(b, int64(a.id), 10)
 	}
 	for _, a := range t.Bound {
-		fmt.Fprintf(&sb, ";%d", a.id)
+		b = append(b, ';')
+		b = strconv.AppendInt(b, int64(a.id), 10)
 	}
 	for _, a := range t.Pats {
-		fmt.Fprintf(&sb, "!%d", a.id)
+		b = append(b, '!')
+		b = strconv.AppendInt(b, int64(a.id), 10)
 	}
-	return sb.String()
+	return string(b)
 }
 
 func intern(t *Term) *Term {
@@ -212,43 +216,103 @@ func DeclareFun(name string, args []Sort, res Sort) {
 	FunDecls[name] = FunDecl{Args: args, Res: res}
 }
 
-// Add builds a+b.
+// lin is a linear form: K + sum coeff*atom.
+type lin struct {
+	k     *big.Int
+	atoms map[*Term]*big.Int
+}
+
+func linOf(t *Term) lin {
+	l := lin{k: new(big.Int), atoms: map[*Term]*big.Int{}}
+	linAdd(&l, t, big.NewInt(1))
+	return l
+}
+
+func linAdd(l *lin, t *Term, c *big.Int) {
+	switch {
+	case t.Op == "const":
+		l.k.Add(l.k, new(big.Int).Mul(c, t.Val))
+	case t.Op == "+":
+		for _, a := range t.Args {
+			linAdd(l, a, c)
+		}
+	case t.Op == "-" && len(t.Args) == 2:
+		linAdd(l, t.Args[0], c)
+		linAdd(l, t.Args[1], new(big.Int).Neg(c))
+	case t.Op == "*" && len(t.Args) == 2 && t.Args[0].IsConst():
+		linAdd(l, t.Args[1], new(big.Int).Mul(c, t.Args[0].Val))
+	case t.Op == "*" && len(t.Args) == 2 && t.Args[1].IsConst():
+		linAdd(l, t.Args[0], new(big.Int).Mul(c, t.Args[1].Val))
+	default:
+		if o, ok := l.atoms[t]; ok {
+			o.Add(o, c)
+			if o.Sign() == 0 {
+				delete(l.atoms, t)
+			}
+		} else if c.Sign() != 0 {
+			l.atoms[t] = new(big.Int).Set(c)
+		}
+	}
+}
+
+func (l lin) term() *Term {
+	if len(l.atoms) == 0 {
+		return BigC(l.k)
+	}
+	as := make([]*Term, 0, len(l.atoms))
+	for a := range l.atoms {
+		as = append(as, a)
+	}
+	sort.Slice(as, func(i, j int) bool { return as[i].id < as[j].id })
+	args := make([]*Term, 0, len(as)+1)
+	for _, a := range as {
+		c := l.atoms[a]
+		if c.IsInt64() && c.Int64() == 1 {
+			args = append(args, a)
+		} else {
+			args = append(args, mk("*", Int, BigC(c), a))
+		}
+	}
+	if l.k.Sign() != 0 {
+		args = append(args, BigC(l.k))
+	}
+	if len(args) == 1 {
+		return args[0]
+	}
+	return mk("+", Int, args...)
+}
+
+// Add builds a+b in linear normal form.
 func Add(a, b *Term) *Term {
 	if a.IsConst() && b.IsConst() {
 		return BigC(new(big.Int).Add(a.Val, b.Val))
 	}
-	if a.IsConst() && a.Val.Sign() == 0 {
-		return b
-	}
-	if b.IsConst() && b.Val.Sign() == 0 {
-		return a
-	}
-	// (x + c1) + c2
-	if b.IsConst() && a.Op == "+" && len(a.Args) == 2 && a.Args[1].IsConst() {
-		return Add(a.Args[0], BigC(new(big.Int).Add(a.Args[1].Val, b.Val)))
-	}
-	if a.IsConst() && !b.IsConst() {
-		return Add(b, a)
-	}
-	// (x - c1) + c2
-	if b.IsConst() && a.Op == "-" && len(a.Args) == 2 && a.Args[1].IsConst() {
-		return Add(a.Args[0], BigC(new(big.Int).Sub(b.Val, a.Args[1].Val)))
-	}
-	return mk("+", Int, a, b)
+	l := linOf(a)
+	linAdd(&l, b, big.NewInt(1))
+	return l.term()
 }
 
-// Sub builds a-b.
+// Sub builds a-b in linear normal form.
 func Sub(a, b *Term) *Term {
 	if a.IsConst() && b.IsConst() {
 		return BigC(new(big.Int).Sub(a.Val, b.Val))
 	}
-	if b.IsConst() {
-		return Add(a, BigC(new(big.Int).Neg(b.Val)))
+	l := linOf(a)
+	linAdd(&l, b, big.NewInt(-1))
+	return l.term()
+}
+
+// cmpConst decides a-b against zero when the difference is constant.
+func cmpConst(a, b *Term) (int, bool) {
+	if a.S != Int {
+		return 0, false
 	}
-	if a == b {
-		return IntC(0)
+	l := linOf(a)
+	linAdd(&l, b, big.NewInt(-1))
+	if len(l.atoms) == 0 {
+		return l.k.Sign(), true
 	}
-	return mk("-", Int, a, b)
+	return 0, false
 }
 
 // Neg builds -a.
@@ -267,6 +331,15 @@ func Mul(a, b *Term) *Term {
 	}
 	if b.IsConst() && b.Val.IsInt64() && b.Val.Int64() == 1 {
 		return a
+	}
+	if a.IsConst() || b.IsConst() {
+		l := lin{k: new(big.Int), atoms: map[*Term]*big.Int{}}
+		if a.IsConst() {
+			linAdd(&l, b, a.Val)
+		} else {
+			linAdd(&l, a, b.Val)
+		}
+		return l.term()
 	}
 	return mk("*", Int, a, b)
 }
@@ -297,6 +370,9 @@ func Lt(a, b *Term) *Term {
 	if a == b {
 		return False
 	}
+	if c, ok := cmpConst(a, b); ok {
+		return BoolC(c < 0)
+	}
 	return mk("<", Bool, a, b)
 }
 
@@ -307,6 +383,9 @@ func Le(a, b *Term) *Term {
 	}
 	if a == b {
 		return True
+	}
+	if c, ok := cmpConst(a, b); ok {
+		return BoolC(c <= 0)
 	}
 	return mk("<=", Bool, a, b)
 }
@@ -331,6 +410,9 @@ func Eq(a, b *Term) *Term {
 	if a.IsBoolConst() && b.IsBoolConst() {
 		return BoolC(a.B == b.B)
 	}
+	if c, ok := cmpConst(a, b); ok {
+		return BoolC(c == 0)
+	}
 	if a.S == Bool {
 		if a.IsBoolConst() {
 			if a.B {
@@ -343,6 +425,11 @@ func Eq(a, b *Term) *Term {
 				return a
 			}
 			return Not(a)
+		}
+	}
+	if ca, ok := DistinctConsts[a]; ok {
+		if cb, ok := DistinctConsts[b]; ok {
+			return BoolC(ca == cb)
 		}
 	}
 	// table-range pruning: tbl(x) == c where c not in range
@@ -386,6 +473,10 @@ func tableEq(a, b *Term) *Term {
 	}
 	return nil
 }
+
+// DistinctConsts maps constant-array variables to their contents; two of them
+// are equal iff the contents are equal.
+var DistinctConsts = map[*Term]string{}
 
 // Ctors is the set of datatype constructor names (for simplification).
 var Ctors = map[string]bool{}
@@ -539,8 +630,20 @@ func Ite(c, a, b *Term) *Term {
 	return mk("ite", a.S, c, a, b)
 }
 
+var selCache = map[[2]int]*Term{}
+
 // Select builds array read.
 func Select(a, i *Term) *Term {
+	k := [2]int{a.id, i.id}
+	if r, ok := selCache[k]; ok {
+		return r
+	}
+	r := select1(a, i)
+	selCache[k] = r
+	return r
+}
+
+func select1(a, i *Term) *Term {
 	es := ElemOf(a.S)
 	for a.Op == "store" {
 		if a.Args[1] == i {
@@ -571,9 +674,11 @@ func Select(a, i *Term) *Term {
 
 // distinctOffsets reports x != y when they are the same base plus different constants.
 func distinctOffsets(x, y *Term) bool {
-	bx, cx := splitOffset(x)
-	by, cy := splitOffset(y)
-	return bx == by && cx.Cmp(cy) != 0
+	if x.S != Int {
+		return false
+	}
+	c, ok := cmpConst(x, y)
+	return ok && c != 0
 }
 
 func splitOffset(x *Term) (*Term, *big.Int) {
@@ -657,7 +762,11 @@ func subst(t *Term, m map[*Term]*Term, memo map[*Term]*Term) *Term {
 func Rebuild(t *Term, args []*Term) *Term {
 	switch t.Op {
 	case "+":
-		return Add(args[0], args[1])
+		r := args[0]
+		for _, x := range args[1:] {
+			r = Add(r, x)
+		}
+		return r
 	case "-":
 		return Sub(args[0], args[1])
 	case "*":
@@ -797,7 +906,36 @@ func FreeVars(ts []*Term) (vars []*Term, funs []string) {
 
 func (t *Term) String() string {
 	var sb strings.Builder
-	p := &printer{sb: &sb, names: map[*Term]string{}}
-	p.term(t)
+	budget := 400
+	t.short(&sb, &budget, 0)
 	return sb.String()
+}
+
+// short prints a bounded rendering (terms are DAGs; a full tree print can be exponential).
+func (t *Term) short(sb *strings.Builder, budget *int, depth int) {
+	if *budget <= 0 || depth > 12 {
+		sb.WriteString("..")
+		return
+	}
+	*budget--
+	switch t.Op {
+	case "const":
+		sb.WriteString(t.Val.String())
+	case "bool":
+		fmt.Fprint(sb, t.B)
+	case "var":
+		sb.WriteString(t.Name)
+	default:
+		sb.WriteByte('(')
+		if t.Op == "app" {
+			sb.WriteString(t.Name)
+		} else {
+			sb.WriteString(t.Op)
+		}
+		for _, a := range t.Args {
+			sb.WriteByte(' ')
+			a.short(sb, budget, depth+1)
+		}
+		sb.WriteByte(')')
+	}
 }
